@@ -1681,6 +1681,8 @@ class Memoer(Tymee):
 
         memo = bytearray()
         for i in range(cnt):  # iterate in numeric order, items are insertion ordered
+            if i not in grams:  # gram i missing, a gram number >= cnt holds a slot
+                return None
             memo.extend(grams[i])  # extend memo with gram body part at gram i
 
         return memo.decode()  # convert bytearray to str
